@@ -13,6 +13,7 @@ import (
 	"github.com/tetratelabs/wazero/verifharness/memacc"
 	"github.com/tetratelabs/wazero/verifharness/memreplay"
 	"github.com/tetratelabs/wazero/verifharness/registry"
+	"github.com/tetratelabs/wazero/verifharness/sysdef"
 	"github.com/tetratelabs/wazero/verifharness/wasifs"
 )
 
@@ -34,6 +35,8 @@ var cmds = map[string]func([]string){
 	"calls-listen-child":  calls.ChildListen,
 	"replay-wasifs":       wasifs.Main,
 	"wasifs-readdir":      wasifs.Readdir,
+	"replay-sysdef":       sysdef.Main,
+	"sysdef-child":        sysdef.Child,
 	"fc-child":            fcache.Child,
 	"fc-replay":           fcache.ReplayProc,
 	"fc-gate":             fcache.ReplayGate,
